@@ -325,6 +325,14 @@ class SimMachine(object):
         for f in fates:
             if f == "lost":
                 continue
+            if f == "busy":
+                # the command never reaches its chip: the Ethernet chip
+                # answers with a retryable return code (RC_P2P_BUSY)
+                pkt = (b"\x00\x00" +
+                       bytes([0x07, tag, spc, dpc, sy, sx, dy, dx]) +
+                       struct.pack("<2H", 0x8d, seq))
+                out.append((net.LATENCY, pkt, dict(kind=f, seq=seq)))
+                continue
             if not executed:
                 reply = self.execute(rec)
                 executed = True
